@@ -429,6 +429,7 @@ func zzC04Race(bound int) {
 	w.addSecret("private key imported while Lock runs", priv.Serialize())
 	w.sealScanned = len(w.db.Log)
 	verifrt.PreemptionBound(bound)
+	verifrt.YieldOnUnlock(true)
 	var impErr error
 	done := make(chan struct{})
 	go func() {
